@@ -16,6 +16,8 @@ def feature_line(n):
     seqid = "c2" if n % 3 == 0 else "c1"
     attrs = "ID=f%d" % n if n % 2 == 0 else "ID=f%d;N=x" % n
     tail = "\t" if n % 4 == 1 else ""        # an empty tenth column: the line ends with a tab
+    if n % 7 == 2 and n % 5 != 3:
+        attrs = attrs.replace("ID=f%d" % n, "ID=f%d\x85y\u2028z\u2029" % n)      # NEL, LINE / PARAGRAPH SEPARATOR inside the value: only \n ends a line (str.splitlines() would split here)
     if n % 5 == 3:
         attrs, tail = "", ""                  # a feature with an EMPTY attributes column (no weight in the dialect vote, no ID)
     return "%s\ts\t%s\t%d\t%d\t.\t+\t.\t%s%s" % (seqid, ftype, n - 1, n + 5, attrs, tail)       # the first line of a file starts at coordinate 0
